@@ -27,6 +27,10 @@ def apply(src_root, m):
     if s.count(m["old"]) < 1:
         return f"pattern not found in {m['file']}: {m['old'][:60]!r}"
     s = s.replace(m["old"], m["new"], 1 if not m.get("all") else -1)
+    for old, new in m.get("also", []):
+        if old not in s:
+            return f"secondary pattern not found in {m['file']}: {old[:60]!r}"
+        s = s.replace(old, new, 1)
     open(p, "w").write(s)
     return None
 
@@ -37,7 +41,7 @@ def run_one(m, skip_tests, tier):
     out = {"name": m["name"], "props": m["props"], "file": m["file"]}
     try:
         src = os.path.join(scratch, "src")
-        shutil.copytree("/repo/src", src, ignore=shutil.ignore_patterns("__pycache__", "*.egg-info"))
+        shutil.copytree(os.environ.get("SELFCHECK_SRC", "/repo/src"), src, ignore=shutil.ignore_patterns("__pycache__", "*.egg-info"))
         err = apply(src, m)
         if err:
             out["status"] = "stale"
@@ -49,7 +53,7 @@ def run_one(m, skip_tests, tier):
             os.makedirs(home)
             tenv = dict(env, HOME=home, PYTHONPATH=src, MPLBACKEND="Agg")
             r = subprocess.run([boot.PYTHON, "-B", "-m", "pytest", "-q", "-x", "-p", "no:cacheprovider",
-                                "--timeout=900", "/repo/test"], cwd=scratch, env=tenv, capture_output=True,
+                                "--timeout=900", os.path.join(os.path.dirname(os.environ.get("SELFCHECK_SRC", "/repo/src")), "test")], cwd=scratch, env=tenv, capture_output=True,
                                text=True, timeout=1800)
             out["tests_pass"] = r.returncode == 0
             if r.returncode != 0:
